@@ -81,7 +81,7 @@ def center(rng, far_ok=True):
     return rng.integers(-3, 4, size=3).astype(float)
 
 
-STRUCTURED = ["cube", "prism", "octa", "ico", "grid"]
+STRUCTURED = ["cube", "prism", "octa", "ico", "grid", "chamfer"]
 
 
 def structured_vertices(rng, which=None):
@@ -103,6 +103,12 @@ def structured_vertices(rng, which=None):
             for b in (-g, g):
                 V += [[0, a, b], [a, b, 0], [b, 0, a]]
         V = np.array(V, float) / math.hypot(1, g)
+    elif which == "chamfer":
+        # cube with one corner cut off by a tiny chamfer: a sliver-sized face next to large ones
+        e = 10 ** rng.uniform(-3, -1.5)
+        V = [[a, b, c] for a in (-1., 1) for b in (-1., 1) for c in (-1., 1) if not (a == 1 and b == 1 and c == 1)]
+        V += [[1 - e, 1, 1], [1, 1 - e, 1], [1, 1, 1 - e]]
+        V = np.array(V)
     else:  # grid: cube corners + edge midpoints (collinear / coplanar extra hull points)
         V = np.array([[a, b, c] for a in (-1., 0, 1) for b in (-1., 0, 1) for c in (-1., 0, 1)
                       if (a != 0) + (b != 0) + (c != 0) >= 2])
@@ -153,6 +159,14 @@ def rand_spec(rng, kind=None, c=None, scale=None, rot=None, smin=1e-2, smax=1e2,
         mn = float(np.ptp(V, axis=0).max())
         if mn < smin:
             V = V * (smin / mn)
+        if kind == "mesh" and rng.random() < 0.25:
+            # vertices that no triangle uses (strictly interior), placed FIRST in the vertex array: the docstring of
+            # make_convex_mesh allows vertex sets that are not in convex position
+            cen = V.mean(axis=0)
+            k = int(rng.integers(1, 3))
+            extra = np.array([cen + rng.uniform(0.5, 0.95) * (V[int(np.argmax(V @ rand_dir(rng)))] - cen) for _ in range(k)])
+            V = np.vstack([extra, V])
+            sub += "+unused-first-vertex"
         V = np.ascontiguousarray(V)
         if kind == "hull":
             sp = {"kind": kind, "V": np.ascontiguousarray(V @ R.T + c), "sub": sub}
@@ -293,6 +307,21 @@ def place_deep(rng, sA, sB, frac=0.5):
     sB2 = O.translated(sB, pA + off - pB)
     depth = min(rA - float(np.linalg.norm(off)), rB)
     return sB2, pA + off, depth
+
+
+def mesh_vertex_dirs(spec):
+    """world directions from the centroid of a mesh towards its first vertices (unused interior vertices come first)"""
+    b = spec["base"] if spec["kind"] == "margin" else spec
+    if b["kind"] != "mesh":
+        return []
+    V = np.asarray(b["V"], float); R = np.asarray(b["T"], float)[:3, :3]
+    cen = V.mean(axis=0)
+    out = []
+    for v in V[:2]:
+        d = R @ (v - cen)
+        if np.linalg.norm(d) > 0:
+            out.append(np.ascontiguousarray(d / np.linalg.norm(d)))
+    return out
 
 
 def rand_dirs(rng, n, frames=()):
